@@ -3,20 +3,24 @@
 package main
 
 import (
+	"context"
 	"encoding/binary"
 	"errors"
 	"fmt"
 	"io"
+	"sort"
 	"strings"
 	"time"
 
 	"go.opentelemetry.io/collector/pdata/pcommon"
 
 	"github.com/tdakkota/docker-logql/internal/dockerlog"
+	"github.com/tdakkota/docker-logql/internal/logql/logqlengine"
 	"github.com/tdakkota/docker-logql/internal/logstorage"
 	"github.com/tdakkota/docker-logql/internal/otelstorage"
 	"github.com/tdakkota/docker-logql/internal/zzverif/fakedocker"
 	"github.com/tdakkota/docker-logql/internal/zzverif/vkit"
+	"github.com/tdakkota/docker-logql/internal/zzverif/vsched"
 )
 
 // c03Rec is one record of the alphabet: wire text of the timestamp + the instant it denotes.
@@ -124,8 +128,17 @@ func c03Wire(in c03Input) (data []byte, rd *planReader, expN int, expErr bool) {
 	case "badts":
 		frames[in.Env.At] = fakedocker.Frame(in.Recs[in.Env.At].Stream, []byte("2024-13-45T99:00:00Z "+in.Recs[in.Env.At].Msg))
 		expN, expErr = in.Env.At, true
+	case "badts-fixed": // the daemon's fixed-width layout, but no date
+		frames[in.Env.At] = fakedocker.Frame(in.Recs[in.Env.At].Stream, []byte("2024-13-45T99:61:61.000000001Z "+in.Recs[in.Env.At].Msg))
+		expN, expErr = in.Env.At, true
 	case "nospace":
 		frames[in.Env.At] = fakedocker.Frame(in.Recs[in.Env.At].Stream, []byte("nospacehere"))
+		expN, expErr = in.Env.At, true
+	case "empty-frame": // a frame without payload carries no timestamp: unparsable, reported
+		frames[in.Env.At] = fakedocker.Frame(in.Recs[in.Env.At].Stream, nil)
+		expN, expErr = in.Env.At, true
+	case "empty-systemerr": // a daemon error frame without text is a daemon error all the same
+		frames[in.Env.At] = fakedocker.Frame(fakedocker.Systemerr, nil)
 		expN, expErr = in.Env.At, true
 	case "oversize":
 		f := frames[in.Env.At]
@@ -244,6 +257,76 @@ func c03Check(r *vkit.Run, in c03Input) {
 	}
 }
 
+// c03E2ECheck: the same records seen where a user sees them, in the answer of Engine.Eval to `{}` over a fake Docker
+// client serving the stream (Env "e2e": one container; "e2e2": two containers serving the same stream each): every
+// record is an entry, with its timestamp and its message, as often as it was logged.
+func c03E2ECheck(r *vkit.Run, in c03Input) {
+	r.Begin("C03/e2e", in)
+	var frames []byte
+	var lo, hi int64 = 1 << 62, 0
+	for _, rec := range in.Recs {
+		frames = append(frames, fakedocker.Frame(rec.Stream, []byte(rec.TS+" "+rec.Msg))...)
+		lo, hi = min(lo, rec.NS), max(hi, rec.NS)
+	}
+	n := 1
+	if in.Env.Kind == "e2e2" {
+		n = 2
+	}
+	var ctrs []fakedocker.Container
+	for i := 0; i < n; i++ {
+		ctrs = append(ctrs, fakedocker.Container{ID: fmt.Sprintf("id%d", i), Name: fmt.Sprintf("/n%d", i), Image: "img", State: "running", Log: frames})
+	}
+	fake := fakedocker.New(ctrs)
+	got := map[string]int{}
+	var errText string
+	s := vsched.RunMain(vsched.NewCtx(nil), func() {
+		q, _ := dockerlog.NewQuerier(fake)
+		data, err := newEngine(q).Eval(context.Background(), `{}`, logqlengine.EvalParams{Start: otelstorage.Timestamp(lo - lo%sec), End: otelstorage.Timestamp(hi - hi%sec + sec), Step: time.Second, Limit: -1})
+		if err != nil {
+			errText = err.Error()
+			return
+		}
+		for _, st := range data.StreamsResult.Result {
+			for _, e := range st.Values {
+				got[fmt.Sprintf("%d %q", int64(e.T), e.V)]++
+			}
+		}
+	})
+	r.Eval()
+	r.Step(len(in.Recs))
+	want := map[string]int{}
+	for _, rec := range in.Recs {
+		want[fmt.Sprintf("%d %q", rec.NS, rec.Msg)] += n
+	}
+	fail := func(why string) {
+		r.Fail("C03/e2e", in, nil, map[string]any{"entries": got, "err": errText, "panics": s.Panics}, want, why, "")
+	}
+	switch {
+	case len(s.Panics) > 0:
+		fail("panic: " + strings.Join(s.Panics, "; "))
+	case errText != "":
+		fail("`{}` over a well-formed stream failed: " + errText)
+	default:
+		keys := make([]string, 0, len(want))
+		for k := range want {
+			keys = append(keys, k)
+		}
+		sort.Strings(keys)
+		for _, k := range keys {
+			if got[k] != want[k] {
+				fail(fmt.Sprintf("entry %s returned %d times, logged %d times", k, got[k], want[k]))
+				return
+			}
+		}
+		for k := range got {
+			if want[k] == 0 {
+				fail("entry " + k + " was never logged")
+				return
+			}
+		}
+	}
+}
+
 func c03Alphabet() []c03Rec {
 	type tsForm struct {
 		text string
@@ -333,7 +416,7 @@ func c03Run(r *vkit.Run) {
 			}
 		}
 		for i := range seq {
-			for _, k := range []string{"systemerr", "badts", "nospace", "oversize"} {
+			for _, k := range []string{"systemerr", "badts", "badts-fixed", "nospace", "oversize", "empty-frame", "empty-systemerr"} {
 				run(c03Env{Kind: k, At: i})
 			}
 		}
@@ -357,14 +440,86 @@ func c03Run(r *vkit.Run) {
 			}
 		}
 	}
+	// the daemon's own fixed-width timestamps (nine fraction digits, Z) in different seconds, minutes, days and years:
+	// every sequence of up to three records, and an unreadable date in that layout after good records
+	if r.Shard == 2%max(r.NShards, 1) {
+		var fixed []c03Rec
+		for k, t := range []time.Time{time.Date(2024, 1, 2, 3, 4, 0, 1, time.UTC), time.Date(2024, 1, 2, 3, 4, 0, 999999999, time.UTC), time.Date(2024, 1, 2, 3, 4, 1, 0, time.UTC),
+			time.Date(2024, 1, 2, 3, 5, 7, 123456789, time.UTC), time.Date(2025, 12, 31, 23, 59, 59, 999999999, time.UTC), time.Date(2024, 1, 2, 3, 4, 0, 500000000, time.UTC)} {
+			text := t.Format("2006-01-02T15:04:05.000000000Z")
+			fixed = append(fixed, c03Rec{Stream: byte(1 + k%2), TS: text, NS: t.UnixNano(), Msg: fmt.Sprintf("m%d", k)})
+		}
+		for _, a := range fixed {
+			for _, b := range fixed {
+				for _, e := range []c03Env{{Kind: "full"}, {Kind: "bytewise"}, {Kind: "badts-fixed", At: 1}} {
+					c03Check(r, c03Input{Recs: []c03Rec{a, b}, Env: e})
+					cases++
+				}
+				for _, c := range fixed {
+					for _, e := range []c03Env{{Kind: "full"}, {Kind: "framewise"}, {Kind: "badts-fixed", At: 2}} {
+						c03Check(r, c03Input{Recs: []c03Rec{a, b, c}, Env: e})
+						cases++
+					}
+				}
+			}
+		}
+	}
+	// end to end: every sequence of up to three records over six (two instants, messages that repeat, an empty one)
+	if r.Shard == 3%max(r.NShards, 1) {
+		var small []c03Rec
+		for k, t := range []time.Time{time.Date(2024, 1, 2, 3, 4, 0, 1, time.UTC), time.Date(2024, 1, 2, 3, 4, 2, 0, time.UTC)} {
+			for j, m := range []string{"same", "", "same "} {
+				small = append(small, c03Rec{Stream: byte(1 + (k+j)%2), TS: t.Format(time.RFC3339Nano), NS: t.UnixNano(), Msg: m})
+			}
+		}
+		for _, kind := range []string{"e2e", "e2e2"} {
+			for _, a := range small {
+				c03E2ECheck(r, c03Input{Recs: []c03Rec{a}, Env: c03Env{Kind: kind}})
+				for _, b := range small {
+					c03E2ECheck(r, c03Input{Recs: []c03Rec{a, b}, Env: c03Env{Kind: kind}})
+					for _, c := range small {
+						c03E2ECheck(r, c03Input{Recs: []c03Rec{a, b, c}, Env: c03Env{Kind: kind}})
+						cases++
+					}
+				}
+			}
+		}
+	}
+	// very long lines (a quarter megabyte and beyond): decoded whole, and a stream that breaks anywhere inside such a
+	// body is an error like any other broken body
+	if r.Shard == 1%max(r.NShards, 1) {
+		for _, n := range []int{262143, 262144, 262145, 300000, 1<<20 + 5} {
+			big := c03Rec{Stream: 1, TS: alpha[0].TS, NS: alpha[0].NS, Msg: strings.Repeat("x", n-1) + "y"}
+			frame := 8 + len(alpha[0].TS) + 1 + n
+			for _, seq := range [][]c03Rec{{big}, {alpha[1], big, alpha[5]}} {
+				first := 0
+				if len(seq) == 3 {
+					first = 8 + len(alpha[1].TS) + 1 + len(alpha[1].Msg)
+				}
+				envs := []c03Env{{Kind: "full"}, {Kind: "cuts", Cuts: []int{first + 8, first + 8 + 262144}}}
+				for _, off := range []int{9, 4096, 65536 + 8, 262144, 262144 + 8, 262144 + 9, 262144 + 8 + len(alpha[0].TS) + 1, frame - 4096, frame - 1} {
+					if off < frame {
+						envs = append(envs, c03Env{Kind: "truncate", At: first + off}, c03Env{Kind: "readerr", At: first + off})
+					}
+				}
+				for _, e := range envs {
+					c03Check(r, c03Input{Recs: seq, Env: e})
+					cases++
+				}
+			}
+		}
+	}
 	r.Count("decoder_runs", cases)
-	r.Note("bounds", fmt.Sprintf("all record sequences of length <=%d over %d records (3 stream types x 5 timestamp spellings x 9 messages; length 3 varies the stream type of the first record only); per sequence: every truncation offset, every read-error offset, every stall offset, all single cuts, all double cuts (length<=2), bytewise, framewise, EOF-with-data, every position of systemerr/bad-timestamp/no-space/oversized frame", maxLen, len(alpha)))
+	r.Note("bounds", fmt.Sprintf("all record sequences of length <=%d over %d records (3 stream types x 5 timestamp spellings x 9 messages; length 3 varies the stream type of the first record only); per sequence: every truncation offset, every read-error offset, every stall offset, all single cuts, all double cuts (length<=2), bytewise, framewise, EOF-with-data, every position of systemerr/bad-timestamp/no-space/oversized/empty frame; lines of 256 KiB -1/0/+1, 300000 and 1 MiB + 5 bytes whole and broken at 9 offsets", maxLen, len(alpha)))
 }
 
 func c03Replay(r *vkit.Run, v vkit.Violation) *vkit.Violation {
 	var in c03Input
 	if err := vkit.DecodeInput(v, &in); err != nil {
 		r.HarnessError("bad input: %v", err)
+	}
+	if v.Check == "C03/e2e" {
+		return vkit.ReplayOne(r, func() { c03E2ECheck(r, in) })
 	}
 	return vkit.ReplayOne(r, func() { c03Check(r, in) })
 }
